@@ -1358,6 +1358,13 @@ def c06(ctx):
     for b0 in range(1, 256):
         edge += [bytes([b0]), bytes([b0]) + b"@b.com", b"a@" + bytes([b0]), b"a@b" + bytes([b0]), b"a" + bytes([b0]) + b"@b.com", b"a@[" + bytes([b0]) * 8 + b"]", b"a@b." + bytes([b0]) + b"c",
                  b'"' + bytes([b0]) + b'"@b.com', b"a@[1.2.3.4" + bytes([b0]), b"a@[IPv6:1::" + bytes([b0]) + b"]"]
+    cov_ops = []
+    origK = ctx.K
+    def K(name, variant, ops, **kw):
+        if variant == "default":
+            cov_ops.extend(ops)
+        return origK(name, variant, ops, **kw)
+    ctx.K = K
     for v in ctx.drives:
         if v.startswith("x:"):
             continue
@@ -1373,6 +1380,26 @@ def c06(ctx):
     hg = HistGen(rng)
     scripts = [hg.random_history(n, H_ADDRS + [b"a@" + d for d in lit[:40]], inject=True) for n in (5, 20, 100) for _ in range(30 if ctx.tier == "quick" else 300)]
     ctx.K("history", "default", ["H " + sc for sc in scripts], nontrivial=lambda op, ln: True)
+    ctx.K = origK
+    # (1b) how much of the library these streams execute: gcov build (gcc -O0 --coverage) replaying the default-build ops
+    # plus the per-part ops of the other properties' generators; reported, not judged
+    cov_ops += ["4 %s %s" % (hx(a), hx(b"]\0")) for a in gen.ipv4_strings("quick", rng)[::3] if 0 not in a] + \
+               ["6 %s %s" % (hx(a), hx(b"]\0")) for a in gen.ipv6_shapes("quick", rng)[::3] if 0 not in a] + \
+               ["A %s %s" % (hx(a), hx(b"\0")) for a in gen.ipv6_shapes("quick", rng)[::9] if 0 not in a] + \
+               ["4 %s %s" % (hx(a), hx(b"\0")) for a in gen.ipv4_strings("quick", rng)[::5] if 0 not in a] + \
+               ["L 6531 %s %s" % (hx(u), hx(gen.AT)) for u in gen.utf8_in_context(gen.utf8_sequences("quick", rng))[::2]] + \
+               ["S %s" % hx(d) for d in gen.special_domains("quick", rng)[::4] if 0 not in d] + \
+               ["U %d %s" % (t, hx(d)) for t in (0, 1) for d in idn_domains(ctx)[::4] if 0 not in d] + \
+               ["E %d %d %s" % (m, t, hx(s)) for m in MODES for t in (0, 1) for s in mails[::3] if 0 not in s] + \
+               ["Y %d %d" % (mask, rc) for mask in (0, 1, 2, 760, 2047) for rc in range(-35, 13)]
+    fi = os.path.join(ctx.scr.dir, "gcov.in")
+    with open(fi, "w") as f:
+        f.write("\n".join(cov_ops) + "\n")
+    subprocess.run([ctx.drive("x:gcov"), fi, fi + ".out", fi + ".lean"], stdout=subprocess.PIPE, stderr=subprocess.PIPE)
+    try:
+        ctx.extra_cov["library_coverage_under_these_streams"] = vlib.gcov_report(ctx.drive("x:gcov"))
+    except Exception as e:
+        ctx.note("gcov report failed: %r" % (e,))
     # model faults are violations too: the model reads what the code reads
     for k in list(ctx.k_fail):
         if "FAULT" in (k.get("model") or "") and "FAULT" not in (k.get("impl") or ""):
@@ -1421,7 +1448,7 @@ def c06(ctx):
         if p.returncode == 77:
             ctx.S("valgrind memcheck reports an error (uninitialised read, invalid access or leak)", op="memcheck slice of %d ops" % len(ops), report=p.stderr.decode(errors="replace")[:2000])
 RULES["C06"] = "distinct ops executed under ASan+UBSan+LSan with exact-size heap inputs and a poisoned heap eav_t: every byte value at every structural position, 1 KiB and 64 KiB inputs of 18 shapes x 7 placements, corpora of the other properties, call histories with injected IDN faults; callgrind instruction counts for doubling lengths"
-VARIANTS_OF["C06"] = {"quick": ["default", "extra", "x:plain"], "thorough": ["default", "extra", "all3", "x:plain"]}
+VARIANTS_OF["C06"] = {"quick": ["default", "extra", "x:plain", "x:gcov"], "thorough": ["default", "extra", "all3", "x:plain", "x:gcov"]}
 TRUSTED_EXTRA["C06"] = ["what the compiled C actually reads and writes is a runtime fact: ASan/UBSan/LSan on every correspondence stream, valgrind memcheck and callgrind carry that half; the model-level no-fault statements are about the model"]
 
 
